@@ -250,7 +250,7 @@ func Check(env *core.Env, rep *core.Report) *core.Result {
 	if thorough {
 		nBin = 600
 	}
-	composeInfo := ComposeCheck(env, rep, nBin, "n2", "+n3")
+	composeInfo := ComposeCheck(env, rep, nBin, "n2", "nest3", "+n3")
 	if a, ok := composeInfo["accepted"].(int); ok {
 		validated += a
 	}
